@@ -426,7 +426,11 @@ def make_kernels(ctx, lab, n_gen, thorough):
 
 
 def report_violation(ctx, lab, what, kind, mode, hist, idx, detail, key=None, extra=None):
-    rep = {"kind": kind, "mode": mode, "archs": lab.archs, "history": hist, "failing_index": idx, "detail": detail,
+    used = {"spr", "v2"}
+    for r in hist:
+        if "--arch" in r["argv"]:
+            used.add(r["argv"][r["argv"].index("--arch") + 1].lower())
+    rep = {"kind": kind, "mode": mode, "archs": [a for a in lab.archs if a in used], "history": hist, "failing_index": idx, "detail": detail,
            "kernels": {r["kernel"]: lab.kernels[r["kernel"]] for r in hist}}
     if extra:
         rep.update(extra)
@@ -463,10 +467,10 @@ def run(ctx):
     all_archs = [a for a in core.shipped_archs() if a in L.ARCH_ISA]
     archs = all_archs if thorough else [a for a in QUICK_ARCHS if a in all_archs]
     ctx.env, lab = setup(ctx, archs)
-    n_hist = (80 if thorough else 6) * (2 if escalate and not thorough else 1)
+    n_hist = (80 if thorough else 10) * (2 if escalate and not thorough else 1)
     n_calls = 12
-    n_shared = (16 if thorough else 2) * (2 if escalate and not thorough else 1)
-    pool_size = 260 if thorough else (70 if escalate else 40)
+    n_shared = (16 if thorough else 3) * (2 if escalate and not thorough else 1)
+    pool_size = 260 if thorough else (80 if escalate else 50)
     kernels = make_kernels(ctx, lab, 60 if thorough else 16, thorough)
 
     t0 = time.time()
@@ -585,7 +589,7 @@ def run(ctx):
         n_corr += correspond(ctx, cfgbits, res, mode, label)
         for idx, detail in rep_f[:1]:
             sig = ("report", L.req_id(h[idx]), mode)
-            if sig in reported:
+            if sig in reported or len([x for x in reported if x[0] == "report"]) >= 3:
                 continue
             reported.add(sig)
             small = shrink_report_failure(lab, fresh_of, h, idx, mode) if label != "cold" else None
@@ -604,7 +608,7 @@ def run(ctx):
         for idx, keys in dig_f[:1]:
             cache_keys = [k for k in keys if k.startswith("cache:")]
             sig = ("digest", tuple(keys), mode)
-            if sig in reported:
+            if sig in reported or len([x for x in reported if x[0] == "digest"]) >= 3:
                 continue
             reported.add(sig)
             ctx.correspondence_break("state-digest", {"history": label, "call": idx, "keys": keys[:8],
